@@ -18,8 +18,8 @@ PROPS = {
         "level": "exploration",
         "quick": cfg(16, 20, args=["bin_every=499"]),
         "thorough": cfg(16, 300, args=["bin_every=499"]),
-        "rule": "every message parsed from a generated stream (as C01, storage micros < 10^6, both source framings) is written with to_write, re-parsed, written again and decoded by the independent reference decoder; the concatenated export is re-read and re-exported; every 499th storage-framed case additionally goes through the real binary: `adlt convert in.dlt -o a.dlt` must write exactly the bytes of the message-wise export and `adlt convert a.dlt -o b.dlt` must be byte-identical to a.dlt. Non-trivial = original header carried WEID or WSID or MSBF or payload > 60000; distinct = (source framing, header shape, payload size bucket).",
-        "floors": {"quick": {"evaluations": 10000, "distinct_nontrivial": 100, "files_compared": 5000, "bin_export_of_export": 50}, "thorough": {"evaluations": 200000, "distinct_nontrivial": 200}},
+        "rule": "every message parsed from a generated stream (as C01, storage micros < 10^6, both source framings) is written with to_write, re-parsed, written again and decoded by the independent reference decoder; the concatenated export is re-read and re-exported; per case one message of the stream gets DLT\\x01 / DLS\\x01 written into its payload (start, end, random offset) or apid/ctid/ecu, is obtained by parsing it in front of a second message and goes through the same message oracle (C02 has no 'no embedded marker' precondition at message level); every 499th storage-framed case additionally goes through the real binary: `adlt convert in.dlt -o a.dlt` must write exactly the bytes of the message-wise export and `adlt convert a.dlt -o b.dlt` must be byte-identical to a.dlt. Non-trivial = original header carried WEID or WSID or MSBF or payload > 60000; distinct = (source framing, header shape, payload size bucket).",
+        "floors": {"quick": {"evaluations": 10000, "distinct_nontrivial": 100, "files_compared": 5000, "bin_export_of_export": 50, "embedded_marker_msgs": 10000}, "thorough": {"evaluations": 200000, "distinct_nontrivial": 200}},
         "needs_bin": True,
         "assumptions": ["htyp version bits and the original len are not compared (to_write normalises them)", "file level comparison skipped (and counted) when the export contains an embedded marker"],
     },
@@ -109,8 +109,8 @@ PROPS = {
         "level": "exploration",
         "quick": cfg(16, 25),
         "thorough": cfg(16, 400),
-        "rule": "argument lists (0-12 values: bool, u8..u64, i8..i64 with extremes, f32/f64 bit patterns incl. NaN payloads/+-inf/-0.0/subnormals, UTF-8 strings incl. empty/NUL/control/multi-byte/65533 bytes, ASCII strings with arbitrary bytes 0x00-0xff, raw data incl. empty and 65534 bytes, 'utf8' strings with invalid UTF-8) encoded by (a) the serde Serializer, (b) payload_from_args in both byte orders, (c) the harness' own encoder in both byte orders; decoded with `for arg in &msg` (count, type_info, raw bytes) and rendered with payload_as_text vs an independent canonical formatter (own windows-1252 table); EVERY truncation point of every payload <= 4000 bytes and one detectable single-field corruption per sample (no type bit, VARI, FIXP, impossible width, length beyond payload) must decode to a prefix; random bit flips must not panic. Non-trivial = >=2 different argument types; distinct = type sequence.",
-        "floors": {"quick": {"evaluations": 1000000, "distinct_nontrivial": 20000, "truncation_points": 50000000, "corruptions": 1000000}, "thorough": {"evaluations": 10000000, "distinct_nontrivial": 50000}},
+        "rule": "argument lists (0-12 values: bool, u8..u64, i8..i64 with extremes, f32/f64 bit patterns incl. NaN payloads/+-inf/-0.0/subnormals, UTF-8 strings incl. empty/NUL/control/multi-byte/65533..65536 bytes, ASCII strings with arbitrary bytes 0x00-0xff, raw data incl. empty and 65532..65536 bytes (a length that does not fit the 16 bit length field must be refused by the serializer: Ok = violation), 'utf8' strings with invalid UTF-8) encoded by (a) the serde Serializer, (b) payload_from_args in both byte orders, (c) the harness' own encoder in both byte orders; decoded with `for arg in &msg` (count, type_info, raw bytes) and rendered with payload_as_text vs an independent canonical formatter (own windows-1252 table); EVERY truncation point of every payload <= 4000 bytes and one detectable single-field corruption per sample (no type bit, VARI, FIXP, impossible width, length beyond payload) must decode to a prefix; random bit flips must not panic. Non-trivial = >=2 different argument types; distinct = type sequence.",
+        "floors": {"quick": {"evaluations": 1000000, "distinct_nontrivial": 20000, "truncation_points": 50000000, "corruptions": 1000000, "unrepresentable_lengths_refused": 200}, "thorough": {"evaluations": 10000000, "distinct_nontrivial": 50000}},
         "assumptions": ["float rendering is compared with std Display of the same value (decimal form is std's)", "corruptions that merely change a value or re-frame later bytes are only checked for 'no panic'"],
     },
     "C20": {
